@@ -35,7 +35,11 @@ class Workspace:
         self.src = os.path.join(self.dir, 'src')
         self.built = False
 
-    def setup(self):
+    def setup(self, mode='kani'):
+        """mode 'kani': harness modules appended as they are (cfg(kani)).  mode 'test': the same modules turned into
+        plain #[test] functions whose kani::any() reads the concrete bytes of a Kani counterexample (env VERIF_CEX),
+        so that the verifier's counterexample is executed on the natively compiled real code."""
+        self.mode = mode
         subprocess.run(['rsync', '-a', '--exclude', 'target', '--exclude', '.git', self.repo + '/', self.src + '/'], check=True)
         sys.path.insert(0, VERIF)
         from oracle import ucdspec
@@ -49,6 +53,8 @@ class Workspace:
                 raise FileNotFoundError(rel)
             with open(os.path.join(VERIF, 'kani', h), encoding='utf-8') as f:
                 extra = f.read()
+            if mode == 'test':
+                extra = to_test_module(extra)
             with open(p, 'a', encoding='utf-8') as f:
                 f.write(extra)
         cfg = os.path.join(self.src, '.cargo')
@@ -58,6 +64,107 @@ class Workspace:
 
     def cleanup(self):
         shutil.rmtree(self.dir, ignore_errors=True)
+
+
+SHIM = r"""
+    #[allow(dead_code, unused_macros, unused_imports)]
+    mod kani {
+        use std::cell::RefCell;
+        thread_local! { static Q: RefCell<Option<Vec<Vec<u8>>>> = RefCell::new(None); }
+        fn next_bytes(n: usize) -> Vec<u8> {
+            Q.with(|q| {
+                let mut q = q.borrow_mut();
+                if q.is_none() {
+                    let raw = match std::env::var("VERIF_CEX") { Ok(r) => r, Err(_) => { println!("verif-replay: counterexample shape mismatch"); std::process::exit(4) } };
+                    let mut v: Vec<Vec<u8>> = raw.split(';').filter(|x| !x.trim().is_empty())
+                        .map(|x| x.split(',').filter(|y| !y.trim().is_empty()).map(|y| match y.trim().parse::<u8>() { Ok(b) => b,
+                            Err(_) => { println!("verif-replay: counterexample shape mismatch"); std::process::exit(4) } }).collect()).collect();
+                    v.reverse();
+                    *q = Some(v);
+                }
+                let b = q.as_mut().unwrap().pop();
+                match b {
+                    Some(b) if b.len() == n => b,
+                    _ => { println!("verif-replay: counterexample shape mismatch"); std::process::exit(4) }
+                }
+            })
+        }
+        pub trait Any { fn any() -> Self; }
+        impl Any for u8 { fn any() -> Self { next_bytes(1)[0] } }
+        impl Any for bool { fn any() -> Self { next_bytes(1)[0] & 1 == 1 } }
+        impl Any for u16 { fn any() -> Self { let b = next_bytes(2); u16::from_le_bytes([b[0], b[1]]) } }
+        impl Any for u32 { fn any() -> Self { let b = next_bytes(4); u32::from_le_bytes([b[0], b[1], b[2], b[3]]) } }
+        impl Any for u64 { fn any() -> Self { let b = next_bytes(8); let mut a = [0u8; 8]; a.copy_from_slice(&b); u64::from_le_bytes(a) } }
+        impl Any for usize { fn any() -> Self { let b = next_bytes(8); let mut a = [0u8; 8]; a.copy_from_slice(&b); u64::from_le_bytes(a) as usize } }
+        impl Any for char { fn any() -> Self { let b = next_bytes(4); match char::from_u32(u32::from_le_bytes([b[0], b[1], b[2], b[3]])) {
+            Some(c) => c, None => { println!("verif-replay: counterexample shape mismatch"); std::process::exit(4) } } } }
+        pub fn any<T: Any>() -> T { T::any() }
+        pub fn assume(b: bool) { if !b { println!("verif-replay: assumption not satisfied"); std::process::exit(3) } }
+        macro_rules! cover { ($($t:tt)*) => {} }
+        pub(crate) use cover;
+    }
+"""
+
+
+def to_test_module(text):
+    out = []
+    for line in text.splitlines(True):
+        st = line.strip()
+        if st == '#[cfg(kani)]':
+            line = line.replace('#[cfg(kani)]', '#[cfg(test)]')
+        elif st == '#[kani::proof]':
+            line = line.replace('#[kani::proof]', '#[test]')
+        elif st.startswith('#[kani::'):
+            continue
+        out.append(line)
+        if st == 'use super::*;':
+            out.append(SHIM)
+    return ''.join(out)
+
+
+def parse_playback(text):
+    """Kani prints one generated unit test per failing check AND per satisfied cover:
+        let concrete_vals: Vec<Vec<u8>> = vec![
+            // 5908
+            vec![20, 23, 0, 0],
+        ];
+    Returns one candidate per test: a list of byte vectors (one per kani::any() call, in call order)."""
+    out = []
+    for mo in re.finditer(r'concrete_vals\s*:\s*Vec<Vec<u8>>\s*=\s*vec!\[(.*?)\];', text, re.S):
+        body = re.sub(r'//[^\n]*', '', mo.group(1))
+        cand = [[int(x) for x in re.findall(r'\d+', v)] for v in re.findall(r'vec!\[([^\]]*)\]', body)]
+        if cand not in out:
+            out.append(cand)
+    return out
+
+
+def replay_cex(repo, package, harness, candidates, timeout=1800):
+    """Run the harness body natively (cargo test) on the concrete values of Kani's counterexamples.
+    candidates: list of candidates, each a list of byte vectors.
+    Returns (the candidate on which the harness assertion fails on the real code, or None; text)."""
+    ws = Workspace(repo)
+    try:
+        ws.setup(mode='test')
+        env = dict(os.environ)
+        env['CARGO_NET_OFFLINE'] = 'true'
+        env['CARGO_TARGET_DIR'] = os.path.join(ws.dir, 'target-test')
+        cmd = ['cargo', 'test', '--offline', '-p', package, '--lib', '--', '--exact', harness, '--nocapture', '--test-threads', '1']
+        last = ''
+        for vecs in candidates:
+            env['VERIF_CEX'] = ';'.join(','.join(str(b) for b in v) for v in vecs)
+            try:
+                p = subprocess.run(cmd, cwd=ws.src, env=env, stdout=subprocess.PIPE, stderr=subprocess.STDOUT, timeout=timeout)
+                out = p.stdout.decode('utf-8', 'replace')
+            except subprocess.TimeoutExpired:
+                return None, 'native replay of the counterexample timed out'
+            last = out[-3000:]
+            if 'verif-replay: counterexample shape mismatch' in out or 'verif-replay: assumption not satisfied' in out:
+                continue
+            if re.search(r'test %s \.\.\. FAILED' % re.escape(harness), out) or ('panicked at' in out and 'test result: FAILED' in out):
+                return vecs, last
+        return None, last
+    finally:
+        ws.cleanup()
 
 
 class HarnessResult:
@@ -136,7 +243,7 @@ def run(ws, package, harnesses, jobs=8, timeout=3000, playback=False):
         if mo4:
             r.cover_ok = (mo4.group(1) == mo4.group(2))
         if playback:
-            r.cex = re.findall(r'vec!\[[^\]]*\]', b)
+            r.cex = parse_playback(b)
     for r in res.values():
         if r.status == 'NOT_RUN':
             r.status = 'TIMEOUT' if rc == -9 else 'ERROR'
